@@ -118,6 +118,8 @@ func init() {
 		for i := range out {
 			out[i] = h[i]
 		}
+		// remember the concrete application so that symbolic applications stay consistent with it
+		fr.i.run.ufRecord("md5", bs, []value(out))
 		return out
 	})
 	ext("(*encoding/base64.Encoding).EncodeToString", func(fr *frame, args []value) value {
@@ -128,6 +130,25 @@ func init() {
 		return base64.StdEncoding.EncodeToString(nativeBytes(bs))
 	})
 	ext("(*encoding/base64.Encoding).DecodeString", func(fr *frame, args []value) value {
+		if ss, ok := args[1].(symstr); ok {
+			// the inverse of an earlier (uninterpreted) encoding of symbolic bytes
+			for _, c := range fr.i.run.ufCalls["base64"] {
+				if len(c.out) != len(ss.b) {
+					continue
+				}
+				same := true
+				for k := range c.out {
+					if c.out[k] != ss.b[k] {
+						same = false
+						break
+					}
+				}
+				if same {
+					return tuple{append([]value{}, c.in...), iface{}}
+				}
+			}
+			panic(inconclusive{"base64 decoding of a symbolic string that no encoding produced"})
+		}
 		b, err := base64.StdEncoding.DecodeString(concString(fr, args[1], "base64 input"))
 		if err != nil {
 			return tuple{[]value(nil), fr.i.nativeError(err.Error())}
@@ -208,6 +229,16 @@ func init() {
 
 type ufCall struct {
 	in, out []value
+}
+
+// ufRecord notes a natively computed application of a function that is uninterpreted on symbolic input.
+func (r *Run) ufRecord(name string, in, out []value) {
+	if r.ufCalls == nil {
+		r.ufCalls = map[string][]ufCall{}
+	}
+	if len(r.ufCalls[name]) < 64 {
+		r.ufCalls[name] = append(r.ufCalls[name], ufCall{in: append([]value{}, in...), out: append([]value{}, out...)})
+	}
 }
 
 // ufBytes applies an uninterpreted byte-string function: fresh symbolic output
